@@ -28,6 +28,25 @@ def run(chk):
             if done or s.meta["lost"]: nt.append(l)
             if len(chk.failures) > 10: break
         chk.note_cases("session-delivery[%s]" % variant, lines, nt, sample_n=1, dist=dist)
+    # model-internal tie: Mgr.v (compared with the implementation above) vs Updater.run_session (GRecon over Sim.v's storages,
+    # the object of flash_reconstruction_sound) on fresh-flash deliveries
+    from . import ts004
+    glines = []
+    for _ in range(200 if chk.quick() else 5000):
+        ns, slot, blk, sz, n = session.pick_geometry(rnd, True)
+        cap = session.max_l(slot, sz)
+        img = ts004.make_image(rnd, n, sz)
+        seq, mode, lost = session.delivery_plan(rnd, n, cap)
+        glines.append("%d %d %d %d|%s" % (slot, n, sz, blk, ",".join("%d:%s" % (i, ts004.encode_fragment(img, n, sz, i).hex()) for i in seq)))
+    try:
+        fvm = core.build_fvm()
+        gout = core.run_stream(fvm, "gsession", glines)
+        badg = [(l, o) for l, o in zip(glines, gout) if not o.startswith("AGREE")]
+        chk.cov["streams"]["model-internal(Mgr vs GRecon/Sim)"] = {"cases": len(glines), "disagreements": len(badg)}
+        if badg:
+            chk.broken.append(("correspondence", "model-internal[Mgr.v vs Updater.run_session]", {"first_differing_case": badg[0][0][:500], "model": badg[0][1]}))
+    except core.BuildError as e:
+        chk.broken.append(("correspondence", "model-internal[build]", {"detail": str(e)[-1000:]}))
     return chk.finish(level="proof",
         rule="session-delivery stream: random geometry (fragment size classes around the 68-byte prefix, counts 1..40 (thorough: up to 300), slot sizes from 17409 B upward, erase blocks 64..512, 4/5/6 slots), "
              "optional prior history (confirmed / rejected / cancelled updates) so the session's slots lie anywhere in the ring, loss sets up to and beyond the capacity, orders (data-then-coded, shuffled, coded-first, trickle), duplicates, late data; "
